@@ -105,9 +105,14 @@ def _settles_future(n, kinds=("set_result", "set_exception")) -> bool:
     return any(isinstance(c.func, ast.Attribute) and c.func.attr in kinds and q.dotted(c.func.value) == "self.future" for c in q.calls(n.ast))
 
 
+def _removed_handles(fi) -> Set[str]:
+    return {q.dotted(c.args[0]) for c in q.calls(fi.node) if q.call_attr(c) == "remove_timeout" and c.args and q.dotted(c.args[0])}
+
+
 def connector(ck):
     repo = ck.repo
     methods = repo.direct_methods(TC, CN)
+    by_name0 = {m.name: m for m in methods}
     eff = ClassEffects(repo, [(TC, CN)])
     tc = ck.func(TC, CN + ".try_connect")
     ocd = ck.func(TC, CN + ".on_connect_done")
@@ -204,6 +209,9 @@ def connector(ck):
     bad = _not_followed(ocd, lambda m: m.id in sid, node_calls("self.close_streams"))
     for m in sets:
         ck.ob("C10.losers-closed", ocd, m.ast, m.id not in bad, "after resolving the future every other in-flight stream is closed (close_streams on every path)")
+    # the overall timers are cancelled only once an attempt succeeded (a failure must leave the connect timeout armed)
+    for m in ocd.cfg.stmt_nodes(lambda m: m.kind == "stmt" and any((q.receiver(c) == "self" and q.call_attr(c) in by_name0 and "self.connect_timeout" in _removed_handles(by_name0[q.call_attr(c)])) or (q.call_attr(c) == "remove_timeout" and c.args and q.dotted(c.args[0]) == "self.connect_timeout") for c in q.calls(m.ast))):
+        ck.ob("C10.timeouts-kept-on-failure", ocd, m.ast, ("@res", True) in ef[m.id], "the overall connect timeout is cancelled only after an attempt succeeded (a failed attempt leaves it armed, otherwise hanging attempts never complete the future)")
     # late success closes its own stream
     rid = {m.id for m in res_nodes}
     handoff = lambda m: m.id in sid or (m.kind == "stmt" and any(q.is_call(c, wvar + ".close") for c in q.calls(m.ast)))
@@ -277,11 +285,38 @@ def connector(ck):
         c = q.find_calls(m.ast, "self.try_connect")[0]
         ck.ob("C10.secondary-once", ot, m.ast, len(c.args) == 1 and "self.secondary_addrs" in {q.dotted(x) for x in ast.walk(c.args[0])}, "the timer starts the secondary family's queue")
     directs = ocd.cfg.stmt_nodes(node_calls("self.on_timeout"))
-    rm = lambda m: m.kind == "stmt" and any(q.call_attr(c) == "remove_timeout" and c.args and q.dotted(c.args[0]) == "self.timeout" for c in q.calls(m.ast))
+    by_name = {m.name: m for m in methods}
+
+    def removes_handle(call, handle="self.timeout") -> bool:
+        """remove_timeout(<handle>) directly, or a connector method whose body does it"""
+        if q.call_attr(call) == "remove_timeout" and call.args and q.dotted(call.args[0]) == handle:
+            return True
+        if q.receiver(call) == "self" and q.call_attr(call) in by_name and q.call_attr(call) not in ("on_timeout",):
+            h = by_name[q.call_attr(call)]
+            return any(q.call_attr(c) == "remove_timeout" and c.args and q.dotted(c.args[0]) == handle for c in q.calls(h.node))
+        return False
+
+    rm = lambda m: m.kind == "stmt" and any(removes_handle(c) for c in q.calls(m.ast))
+    # anything that clears self.timeout (directly or through a connector method) invalidates a later removal by attribute
+    clears = lambda m: m.kind == "stmt" and ((isinstance(m.ast, ast.Assign) and "self.timeout" in q.assigned_paths(m.ast)) or any(q.receiver(c) == "self" and "self.timeout" in (eff.writes(q.call_attr(c)) or {"self.timeout"}) for c in q.calls(m.ast)))
     ef = event_facts(ocd, {"rm": rm}, cond_facts=False)
+    saved = {p_ for st in q.walk_body(ocd.node) if isinstance(st, ast.Assign) and q.dotted(st.value) == "self.timeout" for p_ in q.assigned_paths(st) if "." not in p_}
     for m in directs:
         ck.ob("C10.secondary-once", ocd, m.ast, has(gfo[m.id], "self.timeout is None", False), "on_connect_done starts the secondary family early only while its timer is still pending")
-        ck.ob("C10.secondary-once", ocd, m.ast, ("@rm", True) in ef[m.id], "the pending timer is removed before on_timeout() is called directly (it cannot fire a second time)")
+        before = ("@rm", True) in ef[m.id]
+        after = False
+        if not before and saved:
+            # handle saved in a local before the call and removed afterwards on every path
+            mid = {m.id}
+            rm_saved = lambda x: x.kind == "stmt" and any(q.call_attr(c) == "remove_timeout" and c.args and q.dotted(c.args[0]) in saved for c in q.calls(x.ast))
+            after = not _not_followed(ocd, lambda x: x.id in mid, rm_saved)
+        ck.ob("C10.secondary-once", ocd, m.ast, before or after, "the pending timer is removed while its handle is still known - before on_timeout() clears self.timeout, or through a saved handle afterwards (else it fires a second time and starts another attempt)")
+    # every removal-by-attribute happens while the attribute still holds the handle
+    for fi in methods:
+        gfx = guard_facts(fi, eff)
+        for node, c in fi.cfg.find(lambda x: isinstance(x, ast.Call) and q.call_attr(x) == "remove_timeout" and x.args and (q.dotted(x.args[0]) or "").startswith("self.")):
+            hpath = q.dotted(c.args[0])
+            ck.ob("C10.secondary-once", fi, c, has(gfx[node.id], "%s is None" % hpath, False), "a timer is removed through %s only where that attribute is known to still hold the handle" % hpath)
     st_ = ck.func(TC, CN + ".start")
     prim = [c for c in q.find_calls(st_.node, "self.try_connect")]
     ck.ob("C10.secondary-once", st_, st_.node, len(prim) == 1 and "self.primary_addrs" in {q.dotted(x) for x in ast.walk(prim[0])}, "start() begins with exactly one attempt, in the primary family", construct="start: one primary attempt")
@@ -511,6 +546,46 @@ def callback_leak(ck, cs_cfg):
               "a synchronous exception of the connect callable (TCPClient._create_stream may raise at: %s) must not escape a completion callback before the future is settled and remaining is updated; unprotected callback chains: %s" % ("; ".join(escapes) or "nowhere", ", ".join(mine) or "none"))
 
 
+def timeouts_wired(ck):
+    tcc = ck.func(TC, "TCPClient.connect")
+    st_ = ck.func(TC, CN + ".start")
+    starts = [c for c in q.calls(tcc.node) if q.call_attr(c) == "start" and isinstance(c.func, ast.Attribute)]
+    ck.floor("C10.timeout-wired", len(starts), 1, "connector.start calls in TCPClient.connect")
+    tparam = "timeout"
+    ck.need(tparam in tcc.params(), "TCPClient.connect lost its timeout parameter")
+    sp = [p for p in st_.params() if p != "self"]
+    for c in starts:
+        a = q.kwarg(c, "connect_timeout") or (q.arg(c, sp.index("connect_timeout")) if "connect_timeout" in sp else None)
+        ck.ob("C10.timeout-wired", tcc, c, a is not None and q.dotted(a) == tparam, "TCPClient.connect hands its timeout to the connector as the overall connect timeout")
+    gf = guard_facts(st_)
+    sct = st_.cfg.stmt_nodes(node_calls("self.set_connect_timeout"))
+    ck.ob("C10.timeout-wired", st_, st_.node, len(sct) >= 1, "start() arms the overall connect timeout", construct="start arms connect timeout")
+    for m in sct:
+        c = q.find_calls(m.ast, "self.set_connect_timeout")[0]
+        ck.ob("C10.timeout-wired", st_, m.ast, len(c.args) == 1 and q.dotted(c.args[0]) == "connect_timeout", "the connect timeout given to start() is the one armed")
+    # whenever a timeout was given it is armed
+    def tr(n, val):
+        if n in sct:
+            return True
+        return val
+
+    seen = explore(st_.cfg, False, tr, lambda t: t == "connect_timeout is None", follow_exc=False)
+    for f, v in sorted(seen.get(st_.cfg.exit.id, ()), key=repr):
+        if ("connect_timeout is None", True) in f:
+            continue
+        ck.ob("C10.timeout-wired", st_, st_.node, v, "a given connect timeout is armed on every path of start()", construct="start(): timeout given, armed=%s" % v)
+    ef = event_facts(st_, {"first": node_calls("self.try_connect")}, cond_facts=False)
+    for qn, cb in ((CN + ".set_connect_timeout", "self.on_connect_timeout"), (CN + ".set_timeout", "self.on_timeout")):
+        f = ck.func(TC, qn)
+        adds = [c for c in q.calls(f.node) if q.call_attr(c) in ("add_timeout", "call_later", "call_at")]
+        ok = len(adds) == 1 and any(q.dotted(a) == cb for a in adds[0].args)
+        ck.ob("C10.timeout-wired", f, adds[0] if adds else f.node, ok, "%s schedules %s" % (qn.split(".")[-1], cb))
+        p0 = [p for p in f.params() if p != "self"][0]
+        ck.ob("C10.timeout-wired", f, adds[0] if adds else f.node, bool(adds) and any(isinstance(x, ast.Name) and x.id == p0 for x in ast.walk(adds[0].args[0])) if adds and adds[0].args else False, "the deadline is computed from the given timeout")
+        stores = [s_ for s_ in q.stores_to(f.node, "self." + ("connect_timeout" if "connect" in qn else "timeout"))]
+        ck.ob("C10.timeout-wired", f, f.node, len(stores) == 1 and getattr(stores[0], "value", None) in adds, "the timer handle is remembered (so it can be removed)", construct="%s stores the handle" % qn)
+
+
 def run(ck):
     ck.rule("C10.settle-guarded", "every settle of _Connector.future is dominated by not self.future.done(); the future is never replaced")
     ck.rule("C10.final-error-guard", "the all-addresses-failed error is set only when the address queue is exhausted and remaining == 0")
@@ -519,6 +594,8 @@ def run(ck):
     ck.rule("C10.losers-closed", "close_streams() follows both completions that can leave attempts in flight (success, connect timeout) and closes every member; a late success is closed")
     ck.rule("C10.remaining-once", "remaining starts at len(addrinfo) and is decremented exactly once per completed attempt, before any follow-up")
     ck.rule("C10.one-attempt-per-call", "each driver call starts at most one attempt; attempts are started only by start/on_connect_done/on_timeout")
+    ck.rule("C10.timeouts-kept-on-failure", "on_connect_done cancels the overall connect timeout only on the success path")
+    ck.rule("C10.timeout-wired", "TCPClient.connect's timeout reaches the connector: start() arms it, the setters schedule on_connect_timeout / on_timeout with the given delay and keep the handle")
     ck.rule("C10.failure-retries", "a failed attempt (any Exception) is recorded and, unless the connector is done, continues with the next address of the same family")
     ck.rule("C10.secondary-once", "the secondary family is started once: on_timeout clears the timer first and does nothing when done; the direct call removes the pending timer")
     ck.rule("C10.callback-no-leak", "completion callbacks do not leak a synchronous exception of the injected connect callable (raise-summary of TCPClient._create_stream)")
@@ -527,6 +604,7 @@ def run(ck):
     connector(ck)
     cfg = create_stream(ck)
     callback_leak(ck, cfg)
+    timeouts_wired(ck)
 
 
 # ---------------------------------------------------------------------------
@@ -603,6 +681,16 @@ def _close_streams_noop(root):
     return False
 
 
+def _move_clear_timeouts_first(root):
+    b = root.body
+    i = [k for k, s_ in enumerate(b) if isinstance(s_, ast.Expr) and "clear_timeouts" in _src(s_)]
+    if i:
+        st = b.pop(i[0])
+        b.insert(1, st)
+        return True
+    return False
+
+
 MUTANTS = [
     ("connect timeout settles without the done() guard", _in(CN + ".on_connect_timeout", _unguard_timeout), "C10.settle-guarded"),
     ("late success overwrites the result (no done() test)", _in(CN + ".on_connect_done", replace_stmt(lambda st: isinstance(st, ast.If) and _src(st.test) == "self.future.done()", lambda st: st.orelse)), "C10.settle-guarded"),
@@ -621,6 +709,11 @@ MUTANTS = [
     ("only OSError counts as a failed attempt", _in(CN + ".on_connect_done", replace_expr(lambda n: isinstance(n, ast.ExceptHandler), lambda n: ast.ExceptHandler(type=ast.Name(id="OSError", ctx=ast.Load()), name=n.name, body=n.body))), "C10.failure-retries"),
     ("on_timeout keeps the timer handle", _in(CN + ".on_timeout", remove_stmts(lambda st: _src(st) == "self.timeout = None")), "C10.secondary-once"),
     ("direct on_timeout() without removing the timer", _in(CN + ".on_connect_done", remove_stmts(lambda st: isinstance(st, ast.Expr) and "remove_timeout(self.timeout)" in _src(st))), "C10.secondary-once"),
+    ("seeded C10-adv1: on_timeout() first, then clear_timeout() (stale timer)", _in(CN + ".on_connect_done", replace_stmt(lambda st: isinstance(st, ast.If) and _src(st.test) == "self.timeout is not None", lambda st: [ast.If(test=st.test, body=[parse_stmt("self.on_timeout()"), parse_stmt("self.clear_timeout()")], orelse=[])])), "C10.secondary-once"),
+    ("timer removed after on_timeout() through the attribute", _in(CN + ".on_connect_done", replace_stmt(lambda st: isinstance(st, ast.If) and _src(st.test) == "self.timeout is not None", lambda st: [ast.If(test=st.test, body=[parse_stmt("self.on_timeout()"), parse_stmt("self.io_loop.remove_timeout(self.timeout)")], orelse=[])])), "C10.secondary-once"),
+    ("timeouts cleared on every completion, also failures", _in(CN + ".on_connect_done", lambda root: _move_clear_timeouts_first(root)), "C10.timeouts-kept-on-failure"),
+    ("TCPClient.connect forgets to pass its timeout to the connector", _in("TCPClient.connect", replace_expr(lambda n: isinstance(n, ast.Call) and _src(n.func) == "connector.start", lambda n: ast.Call(func=n.func, args=[], keywords=[]))), "C10.timeout-wired"),
+    ("set_connect_timeout does not keep the handle", _in(CN + ".set_connect_timeout", replace_stmt(lambda st: isinstance(st, ast.Assign), lambda st: [ast.Expr(value=st.value)])), "C10.timeout-wired"),
     ("on_timeout starts an attempt although done", _in(CN + ".on_timeout", replace_stmt(lambda st: isinstance(st, ast.If), lambda st: st.body)), "C10.secondary-once"),
     ("bind failure leaks the socket", _in("TCPClient._create_stream", remove_stmts(lambda st: _src(st) == "socket_obj.close()")), "C10.socket-owned"),
 ]
